@@ -86,8 +86,8 @@ func init() {
 		NotCovered: "the probe sequence itself (hash -> start index, wrap-around, termination when the table is full of tombstones), agreement of equality with hashing, and the Go-map-backed native variants.",
 	}
 	props["C24"] = &PropSpec{
-		Rules:      []string{"alias/append-fresh", "effect/selfrec"},
-		Decides:    "that no list or tuple operation builds a new value by appending onto the storage of an existing one without storing the result back (which would make two lists share a backing array); that no list/tuple operation (nor any other function of the module) is an unconditional self call with unchanged arguments, which would abort the interpreter with an unrecoverable stack overflow.",
+		Rules:      []string{"alias/append-fresh", "alias/make-len-index", "loop/remove-in-place", "conv/checked-int", "effect/selfrec"},
+		Decides:    "that no collection operation stores by index beyond the length of a slice it made with a larger capacity (an out-of-range panic for every such call); that an index loop which deletes the element at its index steps back or leaves; that the checked Int-to-index conversion refuses unsigned values above the int range instead of wrapping them to negative indices; that no list or tuple operation builds a new value by appending onto the storage of an existing one without storing the result back (which would make two lists share a backing array); that no list/tuple operation (nor any other function of the module) is an unconditional self call with unchanged arguments, which would abort the interpreter with an unrecoverable stack overflow.",
 		NotCovered: "sequence semantics (results of index, slice, insert, remove over operation histories); bounds handling of individual operations.",
 	}
 }
